@@ -87,6 +87,11 @@ def descriptors_in(v, out=None):
     return out
 
 
+def leading_dot_name(payload):
+    return any(isinstance(d[D.JC], (list, str)) and len(d[D.JC]) > 0 and isinstance(d[D.JC][0], str) and d[D.JC][0].startswith(".")
+               for d in descriptors_in(payload))
+
+
 def well_formed(jc):
     return isinstance(jc, list) and len(jc) >= 2 and isinstance(jc[1], (list, dict))
 
@@ -95,7 +100,17 @@ class Base(pipeline.Stream):
     model_imports = "JsonClassObs"
     shard = 400
 
+    _up = False
+
+    def ensure(self):
+        """the decision stage re-runs cases after teardown(): come up again (cleaned at exit)"""
+        if not self._up:
+            import atexit
+            self.setup()
+            atexit.register(self.teardown)
+
     def setup(self):
+        self._up = True
         import jsonrpclib.jsonrpc as J
         import jsonrpclib.config as C
         import jsonrpclib.jsonclass as JC
@@ -112,8 +127,10 @@ class Base(pipeline.Stream):
         self.watch.observe(lambda: JC.load({"__jsonclass__": ["decimal.Decimal", ["1"]]}))
 
     def teardown(self):
-        self.watch.teardown()
-        self.world.teardown()
+        if self._up:
+            self._up = False
+            self.watch.teardown()
+            self.world.teardown()
 
     def config(self, use, with_classes, version=2.0):
         cfg = self.C.Config(version=version, use_jsonclass=use)
@@ -124,6 +141,11 @@ class Base(pipeline.Stream):
 
     def masked(self, case, obs):
         return False
+
+    def g_roots(self, obs):
+        """observed import roots without the modules that are in sys.modules anyway (the model hides the same ones)"""
+        hid = set(hidden_roots(self.world))
+        return G.g_list([G.g_str(r) for r in obs["imports"] if r not in hid])
 
     def to_replay(self, case):
         return W.dv_to_json(case)
@@ -143,22 +165,20 @@ class Base(pipeline.Stream):
 
     def check_enabled(self, payload, obs, victim):
         descs = descriptors_in(payload)
-        invalid = [d for d in descs if well_formed(d[D.JC]) and name_is_invalid(d[D.JC][0])]
+        # descriptors that have a class name (element 0 is a string) which is empty or has a forbidden character
+        invalid = [d for d in descs if isinstance(d[D.JC], list) and d[D.JC] and name_is_invalid(d[D.JC][0])]
         malformed = [d for d in descs if not well_formed(d[D.JC])]
         if (invalid or malformed) and obs["outcome"][0] == "ok":
             return ("C08:bad-descriptor-accepted", "payload with an invalid/malformed descriptor was decoded: %r" % (payload,))
         if descs and len(invalid) == len(descs):
-            if obs["outcome"][0] != "raise" or type(obs["outcome"][1]).__name__ != "TranslationError":
+            if not malformed and (obs["outcome"][0] != "raise" or type(obs["outcome"][1]).__name__ != "TranslationError"):
                 return ("C08:invalid-name-not-translation-error", "invalid class name(s) %r: outcome %r" % (
                     [d[D.JC][0] for d in invalid], obs["outcome"]))
             if obs["imports"] or obs["constructs"]:
                 return ("C08:import-before-name-validation", "invalid class name(s) %r, yet imports %r / constructions %r" % (
                     [d[D.JC][0] for d in invalid], obs["imports"], obs["constructs"]))
-        if descs and len(malformed) == len(descs) and (obs["imports"] or obs["constructs"]):
-            return ("C08:import-for-malformed-descriptor", "malformed descriptor(s), yet imports %r / constructions %r" % (
-                obs["imports"], obs["constructs"]))
         if victim is not None:
-            # the victim canary occurs in this payload only under invalid names / in malformed descriptors
+            # the victim canary occurs in this payload only under invalid names / in descriptors without a usable name
             if victim[0] in obs["imports"] or victim[1] in obs["constructs"]:
                 return ("C08:import-before-name-validation", "module %r was imported / %r constructed although it is only named by "
                         "invalid or malformed descriptors in %r" % (victim[0], victim[1], payload))
@@ -204,6 +224,7 @@ class Names(Base):
         return {D.JC: [case["name"], W.dv_copy(case["params"])]}
 
     def run_impl(self, case):
+        self.ensure()
         cfg = self.config(case["use"], False)
         arg = self.payload(case)
         out, imports, constructs = self.watch.observe(lambda: self.J.load(arg, cfg))
@@ -217,9 +238,10 @@ class Names(Base):
         return self.check_enabled(self.payload(case), obs, None)
 
     def encode(self, case, obs):
-        roots = [r for r in obs["imports"]]
+        if case["name"].startswith("."):
+            return None      # CPython loads "<dir>/q.py" under the module name ".q": import-system oddity, not modelled
         return "(%s, %s, %s, %s, %s)" % (g_cfg(case["use"], self.world, False), W.g_dv(self.payload(case)), W.g_outcome(obs["outcome"]),
-                                         G.g_list([G.g_str(r) for r in roots]), G.g_list([G.g_str(c) for c in obs["constructs"]]))
+                                         self.g_roots(obs), G.g_list([G.g_str(c) for c in obs["constructs"]]))
 
     def nontrivial(self, case, obs):
         return True
@@ -343,6 +365,7 @@ class Payload(Base):
         return gen_payload_cases(tier, rng, 400, 6000)
 
     def run_impl(self, case):
+        self.ensure()
         cfg = self.config(case["use"], case["classes"], case["version"])
         text = json.dumps(case["payload"])
         out, imports, constructs = self.watch.observe(lambda: self.J.loads(text, cfg))
@@ -358,10 +381,10 @@ class Payload(Base):
 
     def encode(self, case, obs):
         payload = json.loads(json.dumps(case["payload"]))
-        if payload is None:
+        if payload is None or leading_dot_name(payload):
             return None
         return "(%s, %s, %s, %s, %s)" % (g_cfg(case["use"], self.world, case["classes"]), W.g_dv(payload), W.g_outcome(obs["outcome"]),
-                                         G.g_list([G.g_str(r) for r in obs["imports"]]), G.g_list([G.g_str(c) for c in obs["constructs"]]))
+                                         self.g_roots(obs), G.g_list([G.g_str(c) for c in obs["constructs"]]))
 
     def nontrivial(self, case, obs):
         return bool(descriptors_in(case["payload"]))
@@ -391,6 +414,7 @@ class Server(Base):
         return [c for c in gen_payload_cases(tier, rng, 300, 4000)]
 
     def run_impl(self, case):
+        self.ensure()
         from jsonrpclib.SimpleJSONRPCServer import SimpleJSONRPCDispatcher
         cfg = self.config(case["use"], case["classes"], case["version"])
         disp = SimpleJSONRPCDispatcher(config=cfg)
@@ -424,7 +448,9 @@ class Server(Base):
 
     def oracle(self, case, obs):
         if obs["outcome"][0] == "raise":
-            return ("C08:server-raises", "_marshaled_dispatch raised %s" % type(obs["outcome"][1]).__name__)
+            if obs["rejected"]:
+                return ("C08:rejected-payload-not-32700", "translator rejects the payload but _marshaled_dispatch raised %s" % type(obs["outcome"][1]).__name__)
+            return None      # an accepted payload whose reply cannot be serialised is C02's subject
         reply = obs["outcome"][1]
         if obs["rejected"]:
             if not self.is_32700(reply):
@@ -444,14 +470,14 @@ class Server(Base):
 
     def encode(self, case, obs):
         payload = json.loads(json.dumps(case["payload"]))
-        if payload is None or obs["outcome"][0] == "raise":
+        if payload is None or obs["outcome"][0] == "raise" or leading_dot_name(payload):
             return None
         # with use_jsonclass on, results containing beans are dumped again by the dispatcher: the logging method
         # returns 7, so nothing else is constructed; parameters that are beans are only constructed by load
         return "(%s, %s, %s, %s, %d, %s, %s)" % (
             g_cfg(case["use"], self.world, case["classes"]), G.g_bool(case["version"] >= 2), W.g_dv(payload),
             G.g_bool(self.is_32700(obs["outcome"][1])), obs["calls"] and 1,
-            G.g_list([G.g_str(r) for r in obs["imports"]]), G.g_list([G.g_str(c) for c in obs["constructs"]]))
+            self.g_roots(obs), G.g_list([G.g_str(c) for c in obs["constructs"]]))
 
     def nontrivial(self, case, obs):
         return bool(descriptors_in(case["payload"]))
@@ -479,7 +505,7 @@ class DumpGate(Base):
 
     def gen(self, tier, rng):
         vals = [[1, "a"], {"k": (1, 2)}, [W.Inst("vmod_a.Bean", [("x", 1), ("y", 2)])], {"o": W.Inst("vmod_a.Slotted", [("a", 1), ("b", 2)])},
-                [W.EnumV("vmod_a.Color", 1)], [W.Dec("1.5")], [{D.JC: ["q.Z", []]}], {D.JC: ["q .Z", []]}, [set([1, 2])], []]
+                [W.EnumV("vmod_a.Color", 1)], [W.Dec("1.5")], [{D.JC: ["q.Z", []]}], {D.JC: ["q .Z", []]}, [set([1, 2])], [None]]
         cases = []
         for v in vals:
             for use in (False, True):
@@ -488,6 +514,7 @@ class DumpGate(Base):
         return cases
 
     def run_impl(self, case):
+        self.ensure()
         cfg = self.config(case["use"], False)
         arg = self.world.build(case["value"])
         if case["response"]:
